@@ -153,7 +153,7 @@ def main(tier, seed, replay=None):
     nclt = 40 if tier == "quick" else 900
     for i in range(nclt):
         n = int(rs.randint(1, 6 if tier == "quick" else 8))
-        clt = G.rand_clt(rs, list(range(n)))
+        clt = G.rand_clt(rs, list(range(n)), permute=False)     # stand-alone trees are queried by POSITION: keep ids = positions
         root = clt; root.id = 0
         tab = G.Table(root)
         node = tab.nodes[0]
